@@ -182,6 +182,7 @@ func checkC15CLI(cc *CLICase) []Violation {
 		args := []string{"package", "-f", cfgPath}
 		wantPath := ""
 		expectError := false
+		eitherWay := false // refusal (no file) and success (the right package at the right place) both satisfy the statement
 		switch cc.Target {
 		case "file-matching":
 			wantPath = filepath.Join(outdir, "custom-name"+extOf[f])
@@ -212,12 +213,13 @@ func checkC15CLI(cc *CLICase) []Violation {
 				// without -p the extension decides: a package of the *other* format is the right outcome
 			case "file-matching":
 				if f == "archlinux" {
-					// ".zst" names no packager: inference is not possible for this extension
-					expectError = true
+					// ".zst" names no packager today, so the command refuses; a command that recognises the
+					// conventional ".pkg.tar.zst" is inferring from the extension too: both outcomes are allowed
+					eitherWay = true
 				}
 			}
 		}
-		if cc.Stale && !expectError {
+		if cc.Stale && !expectError && !eitherWay {
 			// something longer than the package is already there (an earlier build, another file of that name)
 			_ = os.WriteFile(wantPath, bytes.Repeat([]byte("stale bytes of an earlier file\n"), 40000), 0o644)
 		}
@@ -226,6 +228,9 @@ func checkC15CLI(cc *CLICase) []Violation {
 		cmd.Env = append(os.Environ(), "SOURCE_DATE_EPOCH=1000000000")
 		out, runErr := cmd.CombinedOutput()
 		files := append(listFiles(work), listFiles(outdir)...)
+		if eitherWay && runErr != nil {
+			expectError = true
+		}
 		if expectError {
 			if runErr == nil {
 				vs.add("C15.cli.no-packager-accepted", f, "nfpm %v succeeded although no packager can be determined; files: %v", args[3:], files)
